@@ -30,6 +30,7 @@ var out *os.File
 var theSink *sink
 var realStdout *os.File
 var raceMode bool
+var sharedRe *process.RuntimeEnvironment
 
 func main() {
 	debug.SetMaxStack(64 << 20)
@@ -319,7 +320,14 @@ func doRun(j *sup.Job, res *sup.Result) {
 
 	var re *process.RuntimeEnvironment
 	var cancel func()
-	if j.Entry == "init" {
+	if j.Entry == "init" && j.ReuseEnv {
+		// a host that keeps one environment and runs program after program on it
+		if sharedRe == nil {
+			sharedRe = &process.RuntimeEnvironment{Color: false}
+		}
+		re = sharedRe
+		re.GlobalEnvironment, re.UseMonitor, re.Typechecked = env, j.Monitor, !j.NoTypecheck
+	} else if j.Entry == "init" {
 		re = &process.RuntimeEnvironment{GlobalEnvironment: env, UseMonitor: j.Monitor, Color: false, Typechecked: !j.NoTypecheck}
 	} else {
 		re, _, cancel = process.NewRuntimeEnvironment()
